@@ -5,7 +5,8 @@ seed=$1; id=$2; tier=${3:-quick}
 cd /repo && git diff --quiet || { echo "/repo is dirty"; exit 2; }
 if [ -f /verif/seeded/$seed/patch.rebased.diff ]; then git -C /repo apply /verif/seeded/$seed/patch.rebased.diff || exit 2; else git -C /repo apply /verif/seeded/$seed/patch.diff || exit 2; fi
 cp /verif/evidence/$id.json /tmp/evidence-$id.keep 2>/dev/null
-cd /verif && ./check $id --tier $tier 2>&1 | grep -v "^WARNING" | grep -E "VIOLATION|^\[" | head -8
+cd /verif && ./check $id --tier $tier > /tmp/try_seed_last.log 2>&1
+grep -E "^VIOLATION" /tmp/try_seed_last.log | head -6; grep -E "^\[" /tmp/try_seed_last.log | tail -1
 git -C /repo checkout -- .
 [ -f /tmp/evidence-$id.keep ] && mv /tmp/evidence-$id.keep /verif/evidence/$id.json
 rm -rf /verif/evidence/replay/$id-*
